@@ -98,7 +98,7 @@ pub fn c11(tier: &str) -> i32 {
             };
             let opts = Opts { max_depth: d, max_memo: m, dev_budget: b, ref_in_key: false, frame: FrameSel::Both, ..Opts::default() };
             let t0 = std::time::Instant::now();
-            let ex = Explorer { base_cfg: cfg, opts, monitor: &guard, xval_full: Default::default() };
+            let ex = Explorer { base_cfg: cfg, opts, monitor: &guard, xval_full: Default::default(), choice_discovery: Default::default() };
             let out = ex.explore(None);
             let l = format!("P{p}/{label}/D{d}M{m}b{b}");
             if verbose {
@@ -218,13 +218,13 @@ pub fn c12(tier: &str) -> i32 {
     for p in 0..=5u8 {
         let cfg = Cfg::new(p).flags(true, true);
         let opts = Opts { max_depth: if quick { 3 } else { 4 }, max_memo: 1, dev_budget: 0, ref_in_key: false, frame: FrameSel::Both, ..Opts::default() };
-        let ex = Explorer { base_cfg: cfg, opts, monitor: &noop, xval_full: Default::default() };
+        let ex = Explorer { base_cfg: cfg, opts, monitor: &noop, xval_full: Default::default(), choice_discovery: Default::default() };
         let mut out = ex.explore(None);
         rep.add_stats(&format!("P{p}/witness-closure"), &out.stats);
         {
             // integer opcodes are picked by a value draw inside the step: one deviation per step at a small box
             let opts = Opts { max_depth: 1, max_memo: 1, dev_budget: 1, ref_in_key: false, frame: FrameSel::Off, ..Opts::default() };
-            let ex2 = Explorer { base_cfg: Cfg::new(p).flags(true, true), opts, monitor: &noop, xval_full: Default::default() };
+            let ex2 = Explorer { base_cfg: Cfg::new(p).flags(true, true), opts, monitor: &noop, xval_full: Default::default(), choice_discovery: Default::default() };
             let out2 = ex2.explore(None);
             rep.add_stats(&format!("P{p}/witness-closure-b1"), &out2.stats);
             for (c, w) in out2.witnesses {
